@@ -28,7 +28,13 @@ def run_one(m, tier='quick', keep=False):
     try:
         shutil.copytree('/repo/panqec', os.path.join(root, 'panqec'),
                         ignore=shutil.ignore_patterns('__pycache__'))
-        for ed in m['edits']:
+        if m.get('patch'):
+            pr = subprocess.run(['patch', '-p1', '-s', '-d', root, '-i',
+                                 m['patch']], capture_output=True, text=True)
+            if pr.returncode != 0:
+                return dict(id=sid, property=m['property'], status='STALE',
+                            note='patch does not apply: ' + pr.stdout[-300:])
+        for ed in m.get('edits', []):
             p = os.path.join(root, ed['file'])
             s = open(p).read()
             if s.count(ed['old']) != ed.get('count', 1):
@@ -55,6 +61,8 @@ def run_one(m, tier='quick', keep=False):
                 except Exception:
                     pass
         status = {0: 'MISSED', 1: 'CAUGHT'}.get(p.returncode, 'HARNESS')
+        if status == 'CAUGHT' and not viol:
+            status = 'HARNESS'
         return dict(id=sid, property=m['property'], status=status,
                     exit=p.returncode, violations=len(viol),
                     classes=sorted(set(classes)),
@@ -72,8 +80,22 @@ def main():
     ap.add_argument('--prop')
     ap.add_argument('--jobs', type=int, default=1)
     ap.add_argument('--tier', default='quick')
+    ap.add_argument('--seeded', action='store_true',
+                    help='run the independent changes under /verif/seeded')
     a = ap.parse_args()
-    ms = json.load(open(os.path.join(VERIF, 'mutants', 'mutants.json')))
+    if a.seeded:
+        ms = []
+        sd = os.path.join(VERIF, 'seeded')
+        for d in sorted(os.listdir(sd)):
+            mp = os.path.join(sd, d, 'meta.json')
+            if os.path.exists(mp):
+                meta = json.load(open(mp))
+                ms.append({'id': d, 'property': meta['property'],
+                           'patch': os.path.join(sd, d, 'patch.diff'),
+                           'note': meta.get('summary', '')})
+    else:
+        ms = json.load(open(os.path.join(VERIF, 'mutants',
+                                         'mutants.json')))
     if a.only:
         ids = set(a.only.split(','))
         ms = [m for m in ms if m['id'] in ids]
@@ -87,7 +109,8 @@ def main():
                   f"{r.get('wall_s', '')!s:>6} {r.get('classes', '')} "
                   f"{r.get('note', '')[:60]} {r.get('tail', '')[-200:]}",
                   flush=True)
-    path = os.path.join(VERIF, 'mutants', 'results.json')
+    path = os.path.join(VERIF, 'seeded' if a.seeded else 'mutants',
+                        'results.json')
     old = {}
     if os.path.exists(path):
         old = {r['id']: r for r in json.load(open(path))}
